@@ -46,6 +46,22 @@ mod blob_types {
         pub b: Blob,
         pub c: String,
     }
+
+    // the block two and three evolved records deep: several chunk buffers are open while it is written
+    #[derive(Debug, Clone, PartialEq, BinaryCodec)]
+    #[evolution(FieldAdded("inner", BlobEvolved { a: 0, b: Blob(Vec::new(), 0), c: String::new() }))]
+    pub struct BlobNest {
+        pub x: u16,
+        pub inner: BlobEvolved,
+        pub y: String,
+    }
+
+    #[derive(Debug, Clone, PartialEq, BinaryCodec)]
+    pub enum BlobHolder {
+        Empty,
+        #[evolution(FieldAdded("n", None))]
+        Full { k: u8, n: Option<BlobNest> },
+    }
 }
 
 /// the frame must be the same bytes wherever the block is written, and the size calculator must count exactly them
@@ -93,6 +109,35 @@ fn through_contexts(acc: &mut Acc, data: &[u8], level: u32, frame: &[u8]) {
             let back1: BlobEvolved = desert::deserialize(&b1).map_err(|e| format!("evolved decode: {e}"))?;
             if back0.b.0 != data || back0.c != "tail" || back1.b.0 != data || back1.c != "tail" || back1.a != 7 {
                 return Err("content or neighbouring fields differ after the round trip through records".into());
+            }
+            // nested: evolved record inside an evolved record inside an evolved enum constructor
+            let vi = |n: usize| refmodel::enc::vi_bytes(n as i32);
+            let nest = BlobNest { x: 0x0102, inner: ev.clone(), y: "yy".into() };
+            let n0 = [1u8, 2, 4, b'y', b'y'];
+            let exp_nest: Vec<u8> = [&[1u8][..], &vi(n0.len())[..], &vi(exp1.len())[..], &n0[..], &exp1[..]].concat();
+            let b2 = desert::serialize_to_byte_vec(&nest).map_err(|e| e.to_string())?;
+            if b2 != exp_nest {
+                return Err(format!("evolved record in an evolved record: {} expected {}", short(&b2), short(&exp_nest)));
+            }
+            let holder = BlobHolder::Full { k: 9, n: Some(nest.clone()) };
+            let h1: Vec<u8> = [&[1u8][..], &exp_nest[..]].concat(); // Some(..)
+            let exp_holder: Vec<u8> = [&[0u8, 1, 1][..], &vi(1)[..], &vi(h1.len())[..], &[9u8][..], &h1[..]].concat();
+            let b3 = desert::serialize_to_byte_vec(&holder).map_err(|e| e.to_string())?;
+            if b3 != exp_holder {
+                return Err(format!("evolved constructor holding the nested records: {} expected {}", short(&b3), short(&exp_holder)));
+            }
+            let mut ctx = SerializationContext::new(SizeCalculator::new());
+            holder.serialize(&mut ctx).map_err(|e| e.to_string())?;
+            let n = ctx.into_output().size();
+            if n != b3.len() {
+                return Err(format!("size calculator through nested contexts: {n} vs {} bytes written", b3.len()));
+            }
+            let back2: BlobNest = desert::deserialize(&b2).map_err(|e| format!("nested decode: {e}"))?;
+            let back3: BlobHolder = desert::deserialize(&b3).map_err(|e| format!("holder decode: {e}"))?;
+            let same = |n: &BlobNest| n.x == 0x0102 && n.y == "yy" && n.inner.a == 7 && n.inner.b.0 == data && n.inner.c == "tail";
+            let ok3 = matches!(&back3, BlobHolder::Full { k: 9, n: Some(n) } if same(n));
+            if !same(&back2) || !ok3 {
+                return Err("content or neighbouring fields differ after the round trip through nested records".into());
             }
             Ok(())
         },
